@@ -8,14 +8,17 @@
 (*   LoopExit  : loop condition false                                      *)
 (* DEVS = {} is the design as repaired; DEVS = {"DEV_SLICE_STEP_OVERFLOW"} *)
 (* is the negative control (TLC must report Inv_NoFail violated).          *)
+(* STEP0 = TRUE adds step 0, which only the public method Variable::slice  *)
+(* can receive: the guard returns at once; NC_METHOD_STEP0_LOOPS is the    *)
+(* function before the repair of finding F19 (Inv_Bounded must fail).      *)
 (***************************************************************************)
 EXTENDS Slice
-CONSTANTS MaxLen, Small, DEVS
+CONSTANTS MaxLen, Small, DEVS, STEP0
 
 Edge == {MAXI, MAXI - 1, -MAXI, -(MAXI - 1)}
 Ints == (-Small..Small) \cup Edge
 Ends == {None} \cup {Some(n) : n \in Ints}
-Steps == Ints \ {0}
+Steps == IF STEP0 THEN Ints ELSE Ints \ {0}
 
 VARIABLES len, start, stop, step, pc, i, b, out, ovf, oob
 vars == <<len, start, stop, step, pc, i, b, out, ovf, oob>>
@@ -25,14 +28,14 @@ Init == /\ len \in 0..MaxLen /\ start \in Ends /\ stop \in Ends /\ step \in Step
 
 Adjust ==
   /\ pc = "adjust"
-  /\ IF len = 0
+  /\ IF len = 0 \/ (step = 0 /\ "NC_METHOD_STEP0_LOOPS" \notin DEVS)
      THEN pc' = "done" /\ UNCHANGED <<i, b>>
      ELSE /\ i' = StartL1(len, start, step)
           /\ b' = StopL1(len, stop, step)
           /\ pc' = "loop"
   /\ UNCHANGED <<len, start, stop, step, out, ovf, oob>>
 
-Continue == (step > 0 /\ i < b) \/ (step < 0 /\ i > b)
+Continue == (step > 0 /\ i < b) \/ (step <= 0 /\ i > b)          \* `if step > 0 { while i < b } else { while i > b }`
 
 LoopStep ==
   /\ pc = "loop" /\ Continue
@@ -73,7 +76,7 @@ Inv_Loop == pc = "loop" =>
 Inv_OperatorForm ==
   pc \in {"done", "fail"} =>
      LET r == SliceL1(len, start, stop, step, DEVS)
-     IN r.out = out /\ r.ovf = ovf /\ r.oob = oob
+     IN ~Loops(r) /\ r.out = out /\ r.ovf = ovf /\ r.oob = oob
 
 (* the loop terminates: at most len iterations *)
 Inv_Bounded == Len(out) <= len
